@@ -3,6 +3,7 @@ mod sut;
 mod gen;
 mod refmodel;
 mod checks;
+mod drivers;
 
 use crate::core::{Ctx, Tier};
 
